@@ -54,6 +54,9 @@ CHECKS["C10"] = ("syntax-directed dataflow over the frame loop (per-iteration re
 CHECKS["C11"] = ("abstract interpretation of AssignmentTool's composition and selection kernels with symbolic sizes (index polynomial, outer-bound linear form, NaN path conditions), selector polarity / axis-role rule (SELECT)",
     "Index composition (t*n_o+o)*n_b+b, nearest-radius selection, outer bound = 3/2 r_T - 1/2 r_{T-1} with NaN exactly beyond it unless outliers are included, nearest direction and nearest rotation selected by argmin along the grid axis. Recovery of the molecule's rotation from principal axes for continuous inputs is numerical and not decided.", "6 C11")
 
+CHECKS["C20"] = ("writer/reader pairing analysis (PAIRIO) over molgri/io.py and the run_grid Snakefile rule (front end parses the rule into ASTs), constant/keyword check of the xvg reader against the property's header grammar",
+    "Structural clauses: each artefact is saved with the matching saver from the direct getter result and loaded with the matching loader; xvg reader constants (skiprows=13, comment '@', no header row, legends s0..s9 in order, names passed on, single column by name, csv index_col=0). Value-exactness of numpy/scipy/pandas serialisation is trusted.", "6 C20")
+
 NOT_APPLICABLE = {
     "C06": "Cartesian Voronoi cell geometry is produced by qhull and floating-point predicates (polygon vertex ordering, F2); no static abstract domain in reach separates the failing coordinate configurations; the one structural clause is too thin to claim the property (DESIGN.md section 6, C06).",
     "C07": "distinctness/separation/hemisphere membership of computed coordinates are numerical facts; the row-count and unit-norm clauses are already run-time assertions, so a static restatement would only test the presence of those asserts (DESIGN.md section 6, C07).",
